@@ -29,10 +29,23 @@
 (*                            -> BinningConfig.from_dict -> create        *)
 (*   ModifyCosmology          self.cosmology | parse_cosmology   combined *)
 (*   ModifyConstruct          Configuration.__init__             combined *)
+(*   BeginRebuild(d)        Configuration(donor.scales, donor.binning,    *)
+(*                            cosmology=c, max_workers=donor.max_workers) *)
+(*                            the public constructor: the new object      *)
+(*                            SHARES the parts objects of the donor       *)
+(*   RebuildConstruct         Configuration.__init__ (isinstance checks,  *)
+(*                            parse_cosmology)                   combined *)
 (*   Raise                  an exception of a step propagates to the user *)
 (*   ObserveAngles          cfg.scales.scales.get_angle_radian(z, cosmo)  *)
 (*                            -> Angular/Physical/ComovingScales          *)
 (*                               ._compute_angle  (ComputeAngle)          *)
+(*                          one step per entry of the operation's         *)
+(*                          observation schedule: "n" = the new object,   *)
+(*                          "d" = the donor / the object modified.        *)
+(*                          Observations are PURE: every one yields the   *)
+(*                          angles of the observed configuration's own    *)
+(*                          cosmology, whatever was observed before on it *)
+(*                          or on a configuration sharing its parts.      *)
 (*   ObserveEq              cfg == twin  (Configuration.__eq__ =          *)
 (*                            BinningConfig.__eq__ and ScalesConfig.__eq__*)
 (*                            and cosmology_is_equal, short circuit)      *)
@@ -95,6 +108,13 @@
 (*                              calling cosmology.angular_diameter_distance*)
 (*                              (invisible on every domain whose           *)
 (*                              cosmologies all have DistanceIdentity)     *)
+(*   "AngleMemoIgnoresCosmology" Scales.get_angle_radian memoises on the   *)
+(*                              Scales object by redshift only: a Scales   *)
+(*                              object shared by two configurations keeps  *)
+(*                              the angles of the cosmology served first   *)
+(*   "AngularInPlace"           AngularScales._compute_angle divides the   *)
+(*                              stored arcmin/arcsec limits in place: the  *)
+(*                              k-th conversion applies the divisor k times*)
 (***************************************************************************)
 EXTENDS Integers, Sequences, FiniteSets, TLC
 
@@ -154,9 +174,13 @@ NoObj == [ok |-> FALSE, scales |-> NoScales, binning |-> NoBinning,
 NoParams == [rmin |-> <<>>, rmax |-> <<>>, unit |-> "-", rw |-> NONE, res |-> NONE,
              zmin |-> NONE, zmax |-> NONE, nb |-> NONE, method |-> "-",
              edges |-> <<>>, closed |-> "-", cosmo |-> "-", workers |-> NONE]
+(* rebuild = <<>>: a modify delta; rebuild = <<cosmology token, schedule>>: *)
+(* "construct from the parts of the current configuration with that        *)
+(* cosmology, then observe angles in the order of the schedule"            *)
 NoDelta == [rmin |-> NSQ, rmax |-> NSQ, unit |-> NS, rw |-> NOTSET, res |-> NOTSET,
             zmin |-> NOTSET, zmax |-> NOTSET, nb |-> NOTSET, method |-> NS,
-            edges |-> NSQ, closed |-> NS, cosmo |-> NS, workers |-> NOTSET]
+            edges |-> NSQ, closed |-> NS, cosmo |-> NS, workers |-> NOTSET,
+            rebuild |-> <<>>]
 
 SRes(st, err, v) == [st |-> st, err |-> err, v |-> v]
 BRes(st, err, v) == [st |-> st, err |-> err, v |-> v]
@@ -164,11 +188,16 @@ CRes(st, err, id) == [st |-> st, err |-> err, id |-> id]
 NoS == SRes("-", "-", NoScales)
 NoB == BRes("-", "-", NoBinning)
 NoC == CRes("-", "-", "-")
-NoObs == [angle |-> [measure |-> "-", div |-> 0, cosmo |-> "-"],
+NoAngle == [measure |-> "-", div |-> 0, pow |-> 0, cosmo |-> "-"]
+NoObs == [angle |-> NoAngle,        \* first observation of the new object
+          seq |-> <<>>,             \* all angle observations: [who, angle]
           eqb |-> "-", eqs |-> "-", eqc |-> "-", eq |-> "-", eqprev |-> "-",
           todict |-> "-", rt |-> "-", rterr |-> "-"]
 NoTmp == [op |-> "-", p |-> NoParams, d |-> NoDelta, rc |-> NoC, rs |-> NoS, rb |-> NoB,
-          carg |-> "-", err |-> "-", step |-> "-", obs |-> NoObs, new |-> NoObj]
+          carg |-> "-", err |-> "-", step |-> "-", obs |-> NoObs, new |-> NoObj,
+          \* per Scales object ("n": the new configuration's, "d": the donor's own if
+          \* it is another object): angles memoised / number of conversions done
+          memo |-> [n |-> NoAngle, d |-> NoAngle], uses |-> [n |-> 0, d |-> 0]]
 NoLast == [op |-> "-", out |-> "-", err |-> "-", step |-> "-", verdict |-> "-",
            rc |-> NoC, rs |-> NoS, rb |-> NoB, carg |-> "-", obs |-> NoObs]
 
@@ -219,7 +248,12 @@ Deltas0 == {NoDelta}
 Deltas1 == IF MaxDelta >= 1 THEN Extend(Deltas0) ELSE {}
 Deltas2 == IF MaxDelta >= 2 THEN Extend(Deltas1) ELSE {}
 Deltas3 == IF MaxDelta >= 3 THEN Extend(Deltas2) ELSE {}
+RebuildDeltas == { [NoDelta EXCEPT !.rebuild = v] : v \in D.rebuild }
 DeltaSpace == Deltas0 \cup Deltas1 \cup Deltas2 \cup Deltas3
+
+(* angle observations made after an operation: create / modify observe the  *)
+(* new object twice, a rebuild follows the schedule of its delta            *)
+DefaultSchedule == <<"n", "n">>
 
 ---------------------------------------------------------------------------
 (* (1) DECLARATIVE LAYER                                                   *)
@@ -334,12 +368,17 @@ AngleSpec(o) ==
                    [] OTHER -> "comoving_distance",
      div |-> CASE u \in {"kpc", "kpc/h"} -> 1000
                [] u = "arcmin" -> 60 [] u = "arcsec" -> 3600 [] OTHER -> 1,
+     pow |-> 1,                                    \* the divisor is applied once
      cosmo |-> o.cosmo]
+
+(* the configuration "the parts of n with cosmology token tok" stands for *)
+RebuildParams(n, tok) == [n EXCEPT !.cosmo = tok]
+RebuildVerdict(n, d) == CosmoVerdict(RebuildParams(n, d.rebuild[1]))
 
 (* two angle formulas give the same angles: same divisor and cosmology and *)
 (* the same distance method - or the two methods tied by DistanceIdentity  *)
 SameAngles(a, b) ==
-    /\ a.div = b.div /\ a.cosmo = b.cosmo
+    /\ a.div = b.div /\ a.pow = b.pow /\ a.cosmo = b.cosmo
     /\ \/ a.measure = b.measure
        \/ /\ {a.measure, b.measure} = {"angular_diameter_distance", "comoving_distance/(1+z)"}
           /\ DistanceIdentity(a.cosmo)
@@ -493,20 +532,24 @@ ConfigEq(a, b) ==          \* and-chain with short circuit
 
 (* cosmology.py: Scales.get_angle_radian(z, cosmology) of the three classes; *)
 (* a configuration always hands its own cosmology over                     *)
-ComputeAngle(o) ==
+(* uses = conversions this Scales object has done before                   *)
+ComputeAngle(o, uses) ==
     LET u == o.scales.unit IN
     IF u \in AngularUnits THEN                              \* AngularScales._compute_angle
         [measure |-> IF u = "rad" THEN "rad" ELSE "deg",
          div |-> CASE u = "arcmin" -> 60 [] u = "arcsec" -> 3600 [] OTHER -> 1,
+         pow |-> IF "AngularInPlace" \in Deviations /\ u \in {"arcmin", "arcsec"} THEN uses + 1 ELSE 1,
          cosmo |-> o.cosmo]
     ELSE IF u \in PhysicalUnits THEN                        \* PhysicalScales._compute_angle
         [measure |-> IF "PhysicalViaComoving" \in Deviations
                      THEN "comoving_distance/(1+z)" ELSE "angular_diameter_distance",
          div |-> IF u = "kpc" THEN 1000 ELSE 1,
+         pow |-> 1,
          cosmo |-> o.cosmo]
     ELSE                                                    \* ComovingScales._compute_angle
         [measure |-> "comoving_distance",
          div |-> IF u = "kpc/h" THEN 1000 ELSE 1,
+         pow |-> 1,
          cosmo |-> o.cosmo]
 
 (* Configuration.to_dict: cosmology_to_yaml *)
@@ -576,6 +619,7 @@ CreateConstruct ==
 (* ---- Configuration.modify ---- *)
 BeginModify(d) ==
     /\ pc = "idle" /\ Len(mods) < MaxMods
+    /\ d.rebuild = <<>>
     /\ mods' = Append(mods, d)
     /\ orig' = cur
     /\ tmp' = [NoTmp EXCEPT !.op = "modify", !.d = d]
@@ -621,7 +665,32 @@ ModifyConstruct ==
           /\ pc' = IF r.st = "ok" THEN "o_angles" ELSE "raise"
     /\ UNCHANGED <<cur, decl, orig, p0, mods, last>>
 
-OpVerdict == IF tmp.op = "create" THEN Verdict(tmp.p) ELSE MergeVerdict(decl, tmp.d)
+(* ---- Configuration(scales, binning, cosmology, max_workers): a new      *)
+(* configuration from the PARTS of the current one.  (Comoving bins are    *)
+(* those of the donor's cosmology: what such an object "means" is left     *)
+(* open, the model does not build it.)                                     *)
+BeginRebuild(d) ==
+    /\ pc = "idle" /\ Len(mods) < MaxMods
+    /\ d.rebuild # <<>>
+    /\ cur.binning.method # "comoving"
+    /\ mods' = Append(mods, d)
+    /\ orig' = cur
+    /\ tmp' = [NoTmp EXCEPT !.op = "rebuild", !.d = d]
+    /\ pc' = "r_construct"
+    /\ UNCHANGED <<cur, decl, p0, last>>
+
+RebuildConstruct ==
+    /\ pc = "r_construct"
+    /\ LET rc == ParseCosmology(tmp.d.rebuild[1])
+           r == Construct(cur.scales, cur.binning, tmp.d.rebuild[1], cur.workers)
+       IN /\ tmp' = [tmp EXCEPT !.rc = rc, !.new = r.v, !.step = "cosmology",
+                                !.err = IF r.st = "ok" THEN "-" ELSE r.err]
+          /\ pc' = IF r.st = "ok" THEN "o_angles" ELSE "raise"
+    /\ UNCHANGED <<cur, decl, orig, p0, mods, last>>
+
+OpVerdict == CASE tmp.op = "create" -> Verdict(tmp.p)
+               [] tmp.op = "rebuild" -> RebuildVerdict(decl, tmp.d)
+               [] OTHER -> MergeVerdict(decl, tmp.d)
 
 (* an exception reaches the user: no new object; cur stays what it was *)
 Raise ==
@@ -634,15 +703,34 @@ Raise ==
     /\ UNCHANGED <<cur, decl, orig, p0, mods>>
 
 (* ---- observations on the new object (tmp.new), then it becomes cur ---- *)
+Schedule == IF tmp.op = "rebuild" THEN tmp.d.rebuild[2] ELSE DefaultSchedule
+(* the new object of a rebuild holds the donor's Scales object itself *)
+SharesScales == tmp.op = "rebuild"
+
+(* one get_angle_radian conversion (for every probe redshift) on the next   *)
+(* configuration of the schedule                                            *)
 ObserveAngles ==
     /\ pc = "o_angles"
-    /\ tmp' = [tmp EXCEPT !.obs.angle = ComputeAngle(tmp.new)]
-    /\ pc' = "o_eq"
+    /\ LET i == Len(tmp.obs.seq) + 1
+           who == Schedule[i]
+           o == IF who = "n" THEN tmp.new ELSE orig
+           slot == IF who = "d" /\ ~SharesScales THEN "d" ELSE "n"    \* which Scales object
+           computed == ComputeAngle(o, tmp.uses[slot])
+           memo == "AngleMemoIgnoresCosmology" \in Deviations
+           got == IF memo /\ tmp.memo[slot] # NoAngle THEN tmp.memo[slot] ELSE computed
+       IN /\ tmp' = [tmp EXCEPT !.obs.seq = Append(@, [who |-> who, angle |-> got]),
+                                !.obs.angle = IF who = "n" /\ @ = NoAngle THEN got ELSE @,
+                                !.memo[slot] = IF memo /\ @ = NoAngle THEN computed ELSE @,
+                                !.uses[slot] = IF "AngularInPlace" \in Deviations THEN @ + 1 ELSE @]
+          /\ pc' = IF i = Len(Schedule) THEN "o_eq" ELSE "o_angles"
     /\ UNCHANGED <<cur, decl, orig, p0, mods, last>>
 
 (* the parameters the new object is declared to stand for *)
 NewDecl == IF tmp.op = "create"
            THEN (IF Verdict(tmp.p) = "accept" THEN ParamsOf(Declared(tmp.p)) ELSE ParamsOf(tmp.new))
+           ELSE IF tmp.op = "rebuild"
+           THEN (IF RebuildVerdict(decl, tmp.d) = "accept"
+                 THEN ParamsOf(Declared(RebuildParams(decl, tmp.d.rebuild[1]))) ELSE ParamsOf(tmp.new))
            ELSE (IF MergeVerdict(decl, tmp.d) = "accept"
                  THEN ParamsOf(Declared(Merge(decl, tmp.d).p)) ELSE ParamsOf(tmp.new))
 
@@ -663,7 +751,7 @@ ObserveEq ==
                              !.obs.eqs = ScalesEq(n.scales, twin.scales),
                              !.obs.eqc = CosmoEq(n.cosmo, twin.cosmo),
                              !.obs.eq = ConfigEq(n, twin),
-                             !.obs.eqprev = IF tmp.op = "modify" THEN ConfigEq(n, orig) ELSE "-"]
+                             !.obs.eqprev = IF tmp.op \in {"modify", "rebuild"} THEN ConfigEq(n, orig) ELSE "-"]
     /\ pc' = "o_todict"
     /\ UNCHANGED <<cur, decl, orig, p0, mods, last>>
 
@@ -698,9 +786,11 @@ Done == pc = "dead" \/ (pc = "idle" /\ Len(mods) = MaxMods)
 (* guards first: TLC must not enumerate the parameter space in every state *)
 SomeCreate == pc = "start" /\ \E p \in ParamSpace : BeginCreate(p)
 SomeModify == pc = "idle" /\ Len(mods) < MaxMods /\ \E d \in DeltaSpace : BeginModify(d)
+SomeRebuild == pc = "idle" /\ Len(mods) < MaxMods /\ \E d \in RebuildDeltas : BeginRebuild(d)
 
 Next == \/ SomeCreate \/ CreateParseCosmology \/ CreateScales \/ CreateBinning \/ CreateConstruct
         \/ SomeModify \/ ModifyScales \/ ModifyBinning \/ ModifyCosmology \/ ModifyConstruct
+        \/ SomeRebuild \/ RebuildConstruct
         \/ Raise \/ ObserveAngles \/ ObserveEq \/ ObserveToDict \/ ObserveFromDict \/ Finish
         \/ (Done /\ UNCHANGED vars)
 
@@ -726,10 +816,19 @@ ModifyEqualsCreate ==
         IN /\ last.verdict = "reject" => (last.out = "rejects" /\ cur = orig)
            /\ last.verdict = "accept" => (last.out = "ok" /\ cur = Declared(m.p))
 
+(* a configuration built from the parts of another one with cosmology c is *)
+(* the configuration of the donor's parameters with cosmology c            *)
+RebuildEqualsCreate ==
+    (AtResult /\ last.op = "rebuild") =>
+        LET d == mods[Len(mods)]
+            p == RebuildParams(ParamsOf(orig), d.rebuild[1])
+        IN /\ last.verdict = "reject" => (last.out = "rejects" /\ cur = orig)
+           /\ last.verdict = "accept" => (last.out = "ok" /\ cur = Declared(p))
+
 (* an operation never changes the object it was applied to *)
 OriginalUnchanged ==
     (pc \notin {"start", "idle", "dead", "c_cosmo", "c_scales", "c_binning", "c_construct"}
-        /\ tmp.op = "modify") => cur = orig
+        /\ tmp.op \in {"modify", "rebuild"}) => cur = orig
 
 (* whatever exists is a well-formed configuration whose comoving edges are *)
 (* those of ITS cosmology                                                  *)
@@ -760,12 +859,19 @@ RoundTripIdentity ==
 
 (* scale limits become angles as r / D(z): D = the unit's distance measure  *)
 (* of the configuration's cosmology (or a measure that is the same there)  *)
+(* EVERY observation: angle conversions are pure (no effect on later ones   *)
+(* of the same configuration or of one sharing its parts)                  *)
 AnglesUseConfiguredCosmology ==
-    (AtResult /\ last.out = "ok") => SameAngles(last.obs.angle, AngleSpec(cur))
+    (AtResult /\ last.out = "ok") =>
+        /\ Len(last.obs.seq) >= 2
+        /\ \A i \in 1..Len(last.obs.seq) :
+              SameAngles(last.obs.seq[i].angle,
+                         AngleSpec(IF last.obs.seq[i].who = "n" THEN cur ELSE orig))
+        /\ SameAngles(last.obs.angle, AngleSpec(cur))
 
 TypeOK ==
     /\ pc \in {"start", "c_cosmo", "c_scales", "c_binning", "c_construct", "idle", "m_scales",
-               "m_binning", "m_cosmo", "m_construct", "raise", "dead", "o_angles", "o_eq",
+               "m_binning", "m_cosmo", "m_construct", "r_construct", "raise", "dead", "o_angles", "o_eq",
                "o_todict", "o_fromdict", "finish"}
     /\ Len(mods) <= MaxMods
     /\ cur.ok \in BOOLEAN
@@ -789,7 +895,8 @@ CompactDelta(d) ==
     (IF d.edges # NSQ THEN << <<"edges", d.edges>> >> ELSE <<>>) \o
     (IF d.closed # NS THEN << <<"closed", d.closed>> >> ELSE <<>>) \o
     (IF d.cosmo # NS THEN << <<"cosmo", d.cosmo>> >> ELSE <<>>) \o
-    (IF d.workers # NOTSET THEN << <<"workers", d.workers>> >> ELSE <<>>)
+    (IF d.workers # NOTSET THEN << <<"workers", d.workers>> >> ELSE <<>>) \o
+    (IF d.rebuild # <<>> THEN << <<"rebuild", d.rebuild>> >> ELSE <<>>)
 
 CompactParams(p) ==
     <<p.rmin, p.rmax, p.unit, p.rw, p.res, p.zmin, p.zmax, p.nb, p.method, p.edges,
@@ -815,7 +922,10 @@ CaseLine ==
         IF last.obs.angle.cosmo = "-" THEN "-"
         ELSE IF DistanceIdentity(last.obs.angle.cosmo) THEN "DA=DC/(1+z)" ELSE "independent">>,
       <<last.obs.eqb, last.obs.eqs, last.obs.eqc, last.obs.eq, last.obs.eqprev>>,
-      <<last.obs.todict, last.obs.rt, last.obs.rterr>> >>
+      <<last.obs.todict, last.obs.rt, last.obs.rterr>>,
+      [i \in 1..Len(last.obs.seq) |->
+          <<last.obs.seq[i].who, last.obs.seq[i].angle.measure, last.obs.seq[i].angle.div,
+            last.obs.seq[i].angle.pow, last.obs.seq[i].angle.cosmo>>] >>
 
 (* one physical line per case: lines of different TLC workers may interleave *)
 PrintCases == AtResult => PrintT(ToString(CaseLine))
